@@ -137,6 +137,27 @@ func (l *labeler) Run(seed func()) {
 					case *ast.AssignStmt:
 						if len(x.Rhs) == 1 && len(x.Lhs) > 1 {
 							v := l.L(info, x.Rhs[0])
+							// a helper of the handler packages that returns several values (current, previous, err): each
+							// result carries the label of what the helper returns in that position, not the join of its arguments
+							if call, ok := ast.Unparen(x.Rhs[0]).(*ast.CallExpr); ok {
+								if fn := Callee(info, call); fn != nil {
+									if fr := l.decls[fn.Origin()]; fr != nil && fr.Decl.Body != nil && fr.Decl.Type.Results != nil {
+										per := l.resultLabels(fr)
+										if len(per) == len(x.Lhs) {
+											for i, lhs := range x.Lhs {
+												o := identObj(info, lhs)
+												if o != nil && isErrorType(o.Type()) {
+													continue
+												}
+												if l.set(o, per[i]) {
+													changed = true
+												}
+											}
+											return true
+										}
+									}
+								}
+							}
 							// comma-ok: only the first result carries the value
 							_, isIdx := ast.Unparen(x.Rhs[0]).(*ast.IndexExpr)
 							_, isTA := ast.Unparen(x.Rhs[0]).(*ast.TypeAssertExpr)
@@ -383,5 +404,39 @@ func adapterCallbackSites(p *Prog, fr *FuncRef, fobj types.Object) []callbackSit
 		})
 	}
 	rec(work{fr, fobj, nil})
+	return out
+}
+
+// resultLabels computes, for a function with several results, the label of each result position: the join over its
+// return statements of the label of the expression returned there, and of the named result variable if there is one.
+func (l *labeler) resultLabels(fr *FuncRef) []uint8 {
+	info := fr.Info()
+	var names []types.Object
+	n := 0
+	for _, fld := range fr.Decl.Type.Results.List {
+		if len(fld.Names) == 0 {
+			n++
+			names = append(names, nil)
+			continue
+		}
+		for _, nm := range fld.Names {
+			n++
+			names = append(names, info.Defs[nm])
+		}
+	}
+	out := make([]uint8, n)
+	for i, o := range names {
+		if o != nil {
+			out[i] |= l.lab[o]
+		}
+	}
+	inspectNoFuncLit(fr.Decl.Body, func(m ast.Node) bool {
+		if r, ok := m.(*ast.ReturnStmt); ok && len(r.Results) == n {
+			for i, e := range r.Results {
+				out[i] |= l.L(info, e)
+			}
+		}
+		return true
+	})
 	return out
 }
